@@ -31,17 +31,18 @@ func TestVerifC02MuxTime(t *testing.T) {
 	if len(files) == 0 {
 		t.Fatal("no muxt behaviour files")
 	}
-	a, err := vfC02NewSecPeer()
-	if err != nil {
-		t.Fatal(err)
-	}
-	b, err := vfC02NewSecPeer()
-	if err != nil {
-		t.Fatal(err)
-	}
 	delays := map[string]time.Duration{"1s": time.Second, "10s": 10*time.Second + time.Millisecond, "30s": 30*time.Second + time.Millisecond,
 		"1min": time.Minute, "1h": time.Hour}
 	synctest.Test(t, func(t *testing.T) {
+		// (inside the bubble: the TLS identities carry certificates dated by the bubble's clock)
+		a, err := vfC02NewSecPeer()
+		if err != nil {
+			t.Fatal(err)
+		}
+		b, err := vfC02NewSecPeer()
+		if err != nil {
+			t.Fatal(err)
+		}
 		sleep := func(class string) time.Duration {
 			d := delays[class]
 			time.Sleep(d)
